@@ -62,8 +62,8 @@ PROPS = {
     "C02": {
         "suites": ["c02"],
         "level": "proof",
-        "proof_module": "GeoProofs.Props.C02",
-        "theorems": ["Geo.rect_intersects_rect_iff", "Geo.rect_intersects_rect_illformed", "Geo.rect_intersects_symm", "Geo.lineIntersectsLine_iff", "Geo.lineIntersectsLine_symm", "Geo.lineIntersectsLine_iff_mk", "Geo.point_intersects_iff", "Geo.point_intersects_line_iff", "Geo.point_intersects_rect_spec", "Geo.geom_intersects_symm_pointrect", "Geo.geom_intersects_dispatch_symm", "Geo.geom_intersects_symm_partial", "Geo.ringIntersectsSegment_sound", "Geo.ringIntersectsSegment_sound_mk", "Geo.vertex_on_segment", "Geo.ringIntersectsLine_sound", "Geo.ringIntersectsRing_sound"],
+        "proof_module": "GeoProofs.Props.C02Jordan",
+        "theorems": ["Geo.rect_intersects_rect_iff", "Geo.rect_intersects_rect_illformed", "Geo.rect_intersects_symm", "Geo.lineIntersectsLine_iff", "Geo.lineIntersectsLine_symm", "Geo.lineIntersectsLine_iff_mk", "Geo.point_intersects_iff", "Geo.point_intersects_line_iff", "Geo.point_intersects_rect_spec", "Geo.geom_intersects_symm_pointrect", "Geo.geom_intersects_dispatch_symm", "Geo.geom_intersects_symm_partial", "Geo.ringIntersectsSegment_sound", "Geo.ringIntersectsSegment_sound_mk", "Geo.vertex_on_segment", "Geo.ringIntersectsLine_sound", "Geo.ringIntersectsRing_sound", "Geo.edge_identity", "Geo.edge_flip", "Geo.parity_add_eq_crossings", "Geo.parity_const_of_avoids", "Geo.parity_flips_of_one_proper_crossing_idx", "Geo.parity_flips_of_one_proper_crossing", "Geo.inRing_const_of_avoids", "Geo.segment_outside_of_avoids", "Geo.segment_inside_of_avoids", "Geo.region_meets_segment_iff"],
         "trivial_sigs": set(),
         "claim": "Partial proof (Lean 4): rect x rect and point x anything exact, line x line exact and symmetric (un-indexed), soundness of every `true` of ring x segment/line/ring, dispatch-level symmetry for all kind pairs except Poly x Poly; completeness of `false` answers of ring x segment is a discrete Jordan-curve statement that is NOT proved. Decided for the rest by model<->implementation correspondence plus the exact executable specification (Spec.meets) on generated valid shapes in contact configurations.",
         "rule": "sampled (thorough: all) ordered pairs of small shapes on the 3x3 lattice; generated polygons (rectangles, notched, "
@@ -90,9 +90,9 @@ PROPS = {
     },
     "C06": {
         "suites": ["c06"],
-        "level": "proof", "proof_module": "GeoProofs.Props.C06", "theorems": ["Geo.render_writeV", "Geo.written_tokOK", "Geo.reparse_ok_partial", "Geo.reparse_ok_partial_lineString", "Geo.geometry_preserved", "Geo.lineCoords_roundtrip", "Geo.polyCoords_roundtrip", "Geo.feature_has_properties", "Geo.members_preserved_partial", "Geo.isRectRing_rectRing"],
+        "level": "proof", "proof_module": "GeoProofs.Props.C06", "theorems": ["Geo.render_writeV", "Geo.written_tokOK", "Geo.reparse_ok_partial", "Geo.reparse_ok_partial_lineString", "Geo.lineCoords_roundtrip", "Geo.polyCoords_roundtrip", "Geo.feature_has_properties", "Geo.members_preserved_partial", "Geo.isRectRing_rectRing", "Geo.reparse_main", "Geo.reparse_normal_form'", "Geo.reparse_normal_form", "Geo.reparse_ok", "Geo.write_addProps", "Geo.write_fixpoint", "Geo.reparse_valid", "Geo.geometry_preserved", "Geo.members_preserved", "Geo.multi_children_no_members", "Geo.circle_drops_members", "Geo.circle_written_shape", "Geo.reparse_example_feature", "Geo.reparse_example_circle", "Geo.addProps_valid", "Geo.addProps_idem", "Geo.dropFeatEx_addProps", "Geo.featExs_addProps"],
         "trivial_sigs": set(),
-        "claim": "Partial proof on the AST model (Lean 4): the written text is the rendering of an AST (render_writeV), re-parse gives the identical object for Point and LineString documents, coordinate/extra round trips for LineString/Polygon/Multi* parts, Rect re-detection, Feature always has properties; the full structural induction over collections/features is NOT assembled. Decided in addition by byte-exact correspondence of the writers and an implementation-side round-trip oracle built on encoding/json.",
+        "claim": "Proof on the AST model (Lean 4): every accepted finite document is accepted again from its written AST under the same options as the same object up to the normal form addProps (a Feature without properties gains an empty one), writing is a fixpoint after one step (reparse_ok, reparse_normal_form, write_addProps, write_fixpoint), positions/extras/child order/foreign members are preserved (geometry_preserved, members_preserved; a recognised Circle keeps only centre and radius: circle_drops_members); the text is the rendering of that AST (render_writeV). Trusted: text<->AST decoding and the number codec (DocOK). Tie: byte-exact correspondence of the writers and an implementation-side round-trip oracle built on encoding/json; known finding D18 (negative zero under AllowRects).",
         "rule": "grammar-generated accepted documents (9 types + Circle convention, nesting, 2-4-D and mixed positions, duplicate/escaped keys, "
                 "foreign members, whitespace) under random options: implementation JSON compared byte-for-byte with the model's writer, and the "
                 "round-trip clauses (re-parse accepted, same kind, fixpoint, information preserved, same answers) judged on the implementation "
@@ -199,8 +199,8 @@ PROPS = {
     "C12": {
         "suites": ["c12"],
         "level": "proof",
-        "proof_module": "GeoProofs.Props.C12",
-        "theorems": ["Geo.raycast_translate", "Geo.raycast_scale", "Geo.raycast_translate_eq", "Geo.raycast_scale_eq", "Geo.segIntersectsS_translate", "Geo.segIntersectsS_scale", "Geo.segIntersects_translate", "Geo.segIntersects_scale", "Geo.collinearPt_translate", "Geo.collinearPt_scale", "Geo.segContainsSeg_translate", "Geo.segContainsSeg_scale", "Geo.onSeg_reflX", "Geo.onSeg_reflY", "Geo.onSeg_transpose", "Geo.segsMeet_reflX", "Geo.segsMeet_reflY", "Geo.segsMeet_transpose", "Geo.raycast_on_reflX", "Geo.raycast_on_reflY", "Geo.raycast_on_transpose", "Geo.segIntersects_reflX", "Geo.segIntersects_reflY", "Geo.segIntersects_transpose", "Geo.segContainsSeg_reflX", "Geo.segContainsSeg_reflY", "Geo.segContainsSeg_transpose", "Geo.lineIntersectsLine_of_symm", "Geo.lineIntersectsLine_reflX", "Geo.lineIntersectsLine_reflY", "Geo.lineIntersectsLine_transpose", "Geo.lineContainsPoint_of_symm", "Geo.lineContainsPoint_reflX", "Geo.lineContainsPoint_reflY", "Geo.lineContainsPoint_transpose", "Geo.raycast_inn_reflX_counterexample", "Geo.processPoints_translate", "Geo.processPoints_scale", "Geo.processPoints_map_empty", "Geo.convexSpec_reflX", "Geo.convexSpec_reflY", "Geo.convexSpec_transpose", "Geo.clockwiseSpec_reflX", "Geo.clockwiseSpec_reflY", "Geo.clockwiseSpec_transpose", "Geo.processPoints_reflX", "Geo.processPoints_reflY", "Geo.processPoints_transpose", "Geo.ringContainsPoint_translate", "Geo.ringContainsPoint_scale", "Geo.ringContainsPoint_translate_hit", "Geo.ringContainsPoint_scale_hit", "Geo.ringContainsSegment_aff", "Geo.ringIntersectsSegment_aff", "Geo.ringContainsRing_aff", "Geo.ringIntersectsRing_aff", "Geo.ringIntersectsLine_aff", "Geo.line_containsLineO_aff", "Geo.geom_contains_aff", "Geo.geom_intersects_aff", "Geo.geom_contains_translate", "Geo.geom_intersects_translate", "Geo.geom_contains_scale", "Geo.geom_intersects_scale", "Geo.raycast_inn_neg_scale_counterexample"],
+        "proof_module": "GeoProofs.Props.C12Jordan",
+        "theorems": ["Geo.raycast_translate", "Geo.raycast_scale", "Geo.raycast_translate_eq", "Geo.raycast_scale_eq", "Geo.segIntersectsS_translate", "Geo.segIntersectsS_scale", "Geo.segIntersects_translate", "Geo.segIntersects_scale", "Geo.collinearPt_translate", "Geo.collinearPt_scale", "Geo.segContainsSeg_translate", "Geo.segContainsSeg_scale", "Geo.onSeg_reflX", "Geo.onSeg_reflY", "Geo.onSeg_transpose", "Geo.segsMeet_reflX", "Geo.segsMeet_reflY", "Geo.segsMeet_transpose", "Geo.raycast_on_reflX", "Geo.raycast_on_reflY", "Geo.raycast_on_transpose", "Geo.segIntersects_reflX", "Geo.segIntersects_reflY", "Geo.segIntersects_transpose", "Geo.segContainsSeg_reflX", "Geo.segContainsSeg_reflY", "Geo.segContainsSeg_transpose", "Geo.lineIntersectsLine_of_symm", "Geo.lineIntersectsLine_reflX", "Geo.lineIntersectsLine_reflY", "Geo.lineIntersectsLine_transpose", "Geo.lineContainsPoint_of_symm", "Geo.lineContainsPoint_reflX", "Geo.lineContainsPoint_reflY", "Geo.lineContainsPoint_transpose", "Geo.raycast_inn_reflX_counterexample", "Geo.processPoints_translate", "Geo.processPoints_scale", "Geo.processPoints_map_empty", "Geo.convexSpec_reflX", "Geo.convexSpec_reflY", "Geo.convexSpec_transpose", "Geo.clockwiseSpec_reflX", "Geo.clockwiseSpec_reflY", "Geo.clockwiseSpec_transpose", "Geo.processPoints_reflX", "Geo.processPoints_reflY", "Geo.processPoints_transpose", "Geo.ringContainsPoint_translate", "Geo.ringContainsPoint_scale", "Geo.ringContainsPoint_translate_hit", "Geo.ringContainsPoint_scale_hit", "Geo.ringContainsSegment_aff", "Geo.ringIntersectsSegment_aff", "Geo.ringContainsRing_aff", "Geo.ringIntersectsRing_aff", "Geo.ringIntersectsLine_aff", "Geo.line_containsLineO_aff", "Geo.geom_contains_aff", "Geo.geom_intersects_aff", "Geo.geom_contains_translate", "Geo.geom_intersects_translate", "Geo.geom_contains_scale", "Geo.geom_intersects_scale", "Geo.raycast_inn_neg_scale_counterexample", "Geo.parity_left_eq_right"],
         "trivial_sigs": set(),
         "claim": "Partial proof (Lean 4): every kernel, membership, ring-level heuristic and the whole contains/intersects matrix are equivariant under translation and positive scaling (un-indexed shapes); on-segment, segment intersection, line x line and line-contains-point invariant under reflections and transposition; convex/clockwise transform as expected. NOT proved: polygon membership under reflections/transposition (Jordan), start-vertex independence of the contains heuristics (false: D4/D5). Tie: metamorphic answer groups on the implementation.",
         "rule": "generated pairs under translation (also via Move), scaling by 2,4,1024, reflection in x, in y, transposition, every "
@@ -275,6 +275,7 @@ def classify_finding(pid, ops, i, impl, spec, sig, known):
         return None
     ka, kb = _kind_of(ops, i, toks[1]), _kind_of(ops, i, toks[2])
     contact = sig.endswith("k1")
+    rect_contact = sig.endswith("k2")
     names = ["contains", "intersects", "intersects"]
     matched = None
     for k in range(3):
@@ -282,6 +283,11 @@ def classify_finding(pid, ops, i, impl, spec, sig, known):
             direction = "wrong_true" if impl[k] == "1" else "wrong_false"
             m = None
             for kf in known:
+                if kf.get("requires_rect_contact"):
+                    if rect_contact and _match(dict(kf, requires_contact=False), names[k], ka, kb, direction, True):
+                        m = kf["id"]
+                        break
+                    continue
                 if _match(kf, names[k], ka, kb, direction, contact):
                     m = kf["id"]
                     break
